@@ -1055,8 +1055,21 @@ def main():
             errors.append({"step": name, "error": "parser crashed: %r" % (ex,)})
     facts["errors"] = errors
     facts["written"] = _written
-    with open(os.path.join(BUILD, "gen_facts.json"), "w") as f:
+    if only:
+        # a partial run (some steps only) must not drop what the other steps recorded: merge into the existing file
+        try:
+            with open(os.path.join(BUILD, "gen_facts.json")) as f:
+                prev = json.load(f)
+            prev.update({k: v for k, v in facts.items() if k not in ("errors", "written")})
+            prev["errors"] = [e for e in prev.get("errors", []) if e.get("step") not in only] + errors
+            prev["written"] = _written
+            facts = prev
+        except (OSError, ValueError):
+            pass
+    tmp = os.path.join(BUILD, "gen_facts.json.tmp%d" % os.getpid())
+    with open(tmp, "w") as f:
         json.dump(facts, f, indent=1, default=str)
+    os.replace(tmp, os.path.join(BUILD, "gen_facts.json"))
     for e in errors:
         print("TRANSLATE-ERROR step=%s %s" % (e["step"], e["error"]))
     return 1 if errors else 0
